@@ -97,6 +97,15 @@ func (self *Node) MarshalJSON() ([]byte, error) {
 	}
 
 	// fast path for raw node
+	// NOTICE: the raw text must be read under the read lock, since a concurrent reader
+	// may be materializing this node (see parseRaw/assign)
+	if lock := self.rlock(); lock {
+		if self.isRaw() {
+			defer self.runlock()
+		} else {
+			self.runlock()
+		}
+	}
 	if self.isRaw() {
 		return rt.Str2Mem(self.toString()), nil
 	}
